@@ -22,7 +22,9 @@ Reason(e) ==
   \* clear non-number (a sub-sequence of a non-number may well be a number: '9.1' in '. , , 9.1')
   ELSE IF \E i \in 1..Len(e.absorbed) : NotANumber(e.absorbed[i]) \/ \E j \in 1..Len(e.absorbed[i]) : e.absorbed[i][j] = "x"
        THEN "absorbed-what-is-not-a-number"
-  ELSE IF e.ctx \in FencedList /\ e.commaAbsorbed = 1 /\ InGrammar(e.w) THEN "comma-list-inside-fences-folded"
+  \* (judged when the whole written form is the list: every separator a token of its own)
+  ELSE IF e.ctx \in FencedList /\ e.commaAbsorbed = 1 /\ InGrammar(e.w) /\ (\A i \in Seps(e.w) : e.sep[i] = "own")
+       THEN "comma-list-inside-fences-folded"
   ELSE "ok"
 TInit == l = 1 /\ w = <<>> /\ done = FALSE
 TNext == /\ l <= Len(Rec)
